@@ -193,6 +193,36 @@ def oracle(ctx, script, real, gen_index):
             pending = {k: v for k, v in pending.items() if k[1] != op[1]}
 
 
+def version_race(ctx):
+    """SETFORMAT on the recipient (socket thread) racing the forwarding of one burst to it (clock thread), on two real threads with a
+    preemption point at every read / write of the negotiated version: whatever the schedule, the datagram the recipient's L1 gets is a
+    well-formed datagram of ONE version - the old one or the new one - with that version's layout (v0: 8 header octets + 148 soft
+    bits + 2 padding octets = 158; v1: 11 + 148 = 159), never a mixture"""
+    import itertools
+    from .. import sched_driver as SD
+    n = 0
+    for old, new in ((0, 1), (1, 0), (0, 0), (1, 1), (0, 7)):
+        scheds = list(itertools.product((0, 1), repeat=8)) if ctx.tier == "thorough" else [tuple(ctx.rng.below(2) for _ in range(8)) for _ in range(24)] + [(1,) * 8, (0,) * 8, (1, 1, 1, 0, 0, 0, 1, 1), (1, 1, 0, 0, 0, 1, 1, 1)]
+        for sched in scheds:
+            ctx.in_flight = ("version-race", old, new, sched)
+            am, per, mu, got, reply, trace, states = SD.run_drop_race(12, old, (0, 1), "CMD SETFORMAT %d" % new, list(sched), yield_ver=True)
+            raw = SD.run_drop_race.last_raw
+            n += 1
+            ok = states[0][0] == "done" and states[1][0] == "done" and len(raw) == 1
+            if ok:
+                d = raw[0]
+                v = d[0] >> 4
+                ok = (v == 0 and len(d) == 158 and d[-2:] == b"\0\0") or (v == 1 and len(d) == 159 and not (d[8] & 0x80))
+                ok = ok and v in (old, new if new in (0, 1) else old)
+            if not ok:
+                ctx.oracle_fail("a SETFORMAT racing the forwarding of a burst gives the recipient a datagram that is neither the old nor the new version's well-formed layout",
+                                dict(old_version=old, requested=new, schedule=list(sched), trace=trace, thread_states=[list(x) for x in states],
+                                     datagrams=[dict(version=x[0] >> 4, length=len(x)) for x in raw]), key="c10-version-race")
+                break
+    ctx.count("version_race_schedules", n)
+    ctx.evaluations += n
+
+
 def run(ctx):
     gen(ctx)
     ctx.prove()
@@ -231,6 +261,7 @@ def run(ctx):
         oracle(ctx, s, r, gen_index)
         _C02.oracle(ctx, s, r)
     ctx.sample([SC.describe(o) for o in scripts[0][1][:12]])
+    version_race(ctx)
     ctx.extra["rule"] = ("BTS+MS sessions: SETTA / SETPOWER / FAKE_TOA / FAKE_RSSI / FAKE_CI (bases, thresholds, relative forms) on either side, both header versions, bursts from the real RandBurstGen "
                          "(every training sequence x NB/SB/AB, FB, dummy), random 148/444-bit bursts and adversarial bursts embedding a second sequence, attenuation octets, legacy-padded input; "
                          "distinct_nontrivial = distinct (version, fake RSSI, thresholds active, TA, burst length) and (reported TSC, generator burst type) classes")
